@@ -59,4 +59,25 @@ Section Limb.
   Definition l_mgi_inv (p b : elt) : elt := L.inv_mod thr k b p.
   (* montgomery-ruint.inl inv: inv_mod(r, a, _p); mulin(r, _r3) *)
   Definition l_mr_inv (p p1 a : elt) : elt := l_mga_mul p p1 (L.inv_mod thr k a p) (l_r3 p).
+
+  (* ---- phase 3: the composite operations, again the same compositions as the C++ *)
+  (* rmgaddmul.h: mul(res, b, c); add(a, res) *)
+  Definition l_mga_addmul (p p1 a b c : elt) : elt := l_add p a (l_mga_mul p p1 b c).
+  (* rmdiv.h: inv(ci, c); if (ci == 0) reset(a) else mul(a, b, ci) *)
+  Definition l_mga_div (p p1 b c : elt) : elt :=
+    let ci := l_mga_inv p p1 c in if L.eqb k ci (L.zero k) then L.zero k else l_mga_mul p p1 b ci.
+  Definition l_mgi_div (p b c : elt) : elt :=
+    let ci := l_mgi_inv p c in if L.eqb k ci (L.zero k) then L.zero k else l_mgi_mul p b ci.
+  (* montgomery-ruint.inl sub: lt = (a < b); sub(r, a, b); if (lt) add(r, _p) *)
+  Definition l_mr_sub (p a b : elt) : elt :=
+    let lt := L.lt k a b in let r := fst (L.sub_c k a b) in if lt then fst (L.add_c k r p) else r.
+  (* montgomery-ruint.inl fused operations and division *)
+  Definition l_mr_axpy (p p1 a b c : elt) : elt := l_add p (l_mga_mul p p1 a b) c.
+  Definition l_mr_axpyin (p p1 r a b : elt) : elt := l_add p r (l_mga_mul p p1 a b).
+  Definition l_mr_maxpy (p p1 a b c : elt) : elt := l_mr_sub p c (l_mga_mul p p1 a b).
+  Definition l_mr_maxpyin (p p1 r a b : elt) : elt := l_subin p r (l_mga_mul p p1 a b).
+  Definition l_mr_axmy (p p1 a b c : elt) : elt := l_mr_sub p (l_mga_mul p p1 a b) c.
+  Definition l_mr_axmyin (p p1 r a b : elt) : elt := l_mr_sub p (l_mga_mul p p1 a b) r.
+  Definition l_mr_div (p p1 a b : elt) : elt := l_mga_mul p p1 a (l_mr_inv p p1 b).
+  Definition l_mr_divin (p p1 r a : elt) : elt := l_mga_mul p p1 r (l_mr_inv p p1 a).
 End Limb.
